@@ -14,7 +14,9 @@ class ArgSpec:
         self.flags, self.kw, self.line = flags, kw, line
         self.dest = kw.get('dest')
         if self.dest is None and flags:
-            self.dest = flags[-1].lstrip('-').replace('-', '_')
+            # argparse (_get_optional_kwargs): the first option string with TWO prefix characters, else the first one
+            longs = [f_ for f_ in flags if len(f_) > 1 and f_[1] == '-']
+            self.dest = (longs[0] if longs else flags[0]).lstrip('-').replace('-', '_')
         self.action = kw.get('action', 'store')
         self.nargs = kw.get('nargs')
         self.type = kw.get('type')
